@@ -172,6 +172,8 @@ def source_tie(ctx, flag_holder):
     n_embed = 0
     for p in model["paths"]:
         for th, ops in p["threads"].items():
+            if not flag:  # the model's RReset step is a no-op when the variant has no off-turn store
+                ops = [o for o in ops if o != "KOffTurnStoreIdle"]
             path = du.ops_to_path(ops)
             for which, ename in entry_of[(p["grain"], th)]:
                 if p["grain"] and "system mailbox" in p["name"] and th in (0, 3) and ename != "grain.enqueueEnvelope":
